@@ -294,6 +294,13 @@ def program_cases(tier, max_nodes=None):
     for x, y in itertools.combinations(fm, 2):
         if len(nodes_of([x, y])) == 2:
             out.append([x, y])
+    # forks: an intermediate that is NOT requested and feeds two requested consumers (it must stay materialised, or be
+    # recomputed consistently, whatever the optimizer decided for either consumer alone)
+    for inner in fm:
+        for u1, u2 in ((["neg", inner], ["sub", inner, "a"]), (["neg", inner], ["slice1", inner]), (["sum0", inner], ["neg", inner]),
+                       (["neg", inner], ["sub", inner, inner]), (["T", inner], ["mean1", inner])):
+            if _valid(u1, data, memo) and _valid(u2, data, memo) and len(nodes_of([u1, u2])) == 3:
+                out.append([u1, u2])
     if tier == "thorough":
         # 3 op nodes over the fusion-relevant menu
         fm2 = [t for t in t2 if t[0] in FUSION_MENU and all(s[0] in FUSION_MENU for s in subterms([t]))]
